@@ -373,3 +373,108 @@ def direct_eval(graph, args):
     if not is_graph:
         return ev(graph)(*args), log
     return ev(graph.output), log
+
+
+# ------------------------------------------------------------------ term view for the optimiser model (Model/Opt.v)
+def fn_name(t):
+    """dotted numpy name of a function tracer (np.add.at -> 'add.at'), or None"""
+    import einx._src.tracer as tracer
+    py = tracer.signature.python
+    parts = []
+    while isinstance(t, tracer.Tracer) and isinstance(t.origin, py.GetAttr):
+        parts.append(t.origin.key)
+        t = t.origin.obj
+    if isinstance(t, tracer.Tracer) and isinstance(t.origin, py.Import) and t.origin.import_ == "numpy" and parts:
+        return ".".join(reversed(parts))
+    return None
+
+
+def ser_term(graph, root=None):
+    """tensor-valued part of a real graph as a term of Model/Opt.v (sharing unfolded, casts dropped).
+    Raises Unsupported when the output is not a single tensor expression."""
+    import einx._src.tracer as tracer
+    py = tracer.signature.python
+    cl = tracer.signature.classical
+
+    def lit(x):
+        if isinstance(x, (list, tuple)):
+            return "[" + ",".join(lit(i) for i in x) + "]"
+        if isinstance(x, (int, np.integer, float, str, bool)) or x is None:
+            return repr(x)
+        if isinstance(x, dict):
+            return "{" + ",".join(f"{k}:{lit(v)}" for k, v in x.items()) + "}"
+        raise Unsupported("literal " + type(x).__name__)
+
+    def shape_of(x):
+        if isinstance(x, (cl.Tensor, cl.ConvertibleTensor)) and x.shape is not None:
+            return [int(s) for s in x.shape]
+        return None
+
+    def term(x, shape):
+        """x: tracer; shape: statically known shape from an enclosing cast (or None)"""
+        if not isinstance(x, tracer.Tracer):
+            raise Unsupported("non-tracer tensor argument")
+        sh = shape_of(x) or shape
+        o = x.origin
+        if o is None:
+            for k, inp in enumerate(graph.inputs):
+                if inp is x:
+                    return ["in", k, sh if sh is not None else []]
+            raise Unsupported("free tracer")
+        if isinstance(o, tracer.Cast):
+            if isinstance(o.output, (list, tuple)):
+                idx = [i for i, t in enumerate(o.output) if t is x][0]
+                inner = term(o.input, None)
+                return ["other", s_str("getitem"), [inner], [s_str(str(idx))], sh if sh is not None else []]
+            return term(o.input, sh)
+        if isinstance(o, py.Call):
+            name = fn_name(o.function)
+            args = o.args
+            if name == "reshape" and len(args) == 2 and not o.kwargs:
+                return ["reshape", term(args[0], None), [int(s) for s in args[1]]]
+            if name == "transpose" and len(args) == 2 and not o.kwargs:
+                return ["transpose", term(args[0], None), [int(s) for s in args[1]]]
+            if name == "broadcast_to" and len(args) == 2 and not o.kwargs:
+                return ["broadcast", term(args[0], None), [int(s) for s in args[1]]]
+            if name == "concatenate" and isinstance(args[0], (list, tuple)) and all(isinstance(t, tracer.Tracer) for t in args[0]):
+                return ["concat", [term(t, None) for t in args[0]], int(o.kwargs.get("axis", 0))]
+            targs, lits = [], []
+            for a in list(args) + [v for _, v in sorted(o.kwargs.items())]:
+                if isinstance(a, tracer.Tracer) and not isinstance(a.origin, (py.Import, py.GetAttr, py.Builtin, py.Constant)):
+                    targs.append(term(a, None))
+                elif isinstance(a, (list, tuple)) and a and all(isinstance(t, tracer.Tracer) for t in a):
+                    targs.extend(term(t, None) for t in a)
+                    lits.append(s_str(f"<{len(a)} tensors>"))
+                elif isinstance(a, tracer.Tracer):
+                    lits.append(s_str(fn_name(a) or "<obj>"))
+                else:
+                    lits.append(s_str(lit(a)))
+            lits.append(s_str("kw:" + ",".join(sorted(o.kwargs))))
+            return ["other", s_str(name or "<fn>"), targs, lits, sh if sh is not None else []]
+        if isinstance(o, py.CallInplace):
+            inner = term(o.xs, None)
+            return ["other", s_str("inplace:" + (fn_name(o.function) or "?")), [inner] + [term(a, None) for a in o.args[1:] if isinstance(a, tracer.Tracer)], [], sh if sh is not None else []]
+        if isinstance(o, py.GetItem):
+            return ["other", s_str("getitem"), [term(o.obj, None)], [s_str(lit_key(o.key))], sh if sh is not None else []]
+        if isinstance(o, py.Assert):
+            p = GraphSer(graph).path_in(o.output, x)
+            xs = o.xs
+            for i in (p or []):
+                xs = xs[i]
+            return term(xs, sh)
+        raise Unsupported("application " + type(o).__name__)
+
+    def lit_key(k):
+        import einx._src.tracer as tracer2
+        if isinstance(k, tuple):
+            return "(" + ",".join(lit_key(i) for i in k) + ")"
+        if isinstance(k, slice):
+            return f"{lit_key(k.start)}:{lit_key(k.stop)}:{lit_key(k.step)}"
+        if isinstance(k, tracer2.Tracer):
+            return "<t>"
+        return repr(k)
+
+    out = graph.output if root is None else root
+    if isinstance(out, (list, tuple)):
+        return [term(t, None) for t in out]
+    return [term(out, None)]
